@@ -311,15 +311,20 @@ pub fn run_replay(path: &str) -> i32 {
                 .or_else(|| props_confwire::replay(id, sub, case))
         }
     };
+    // A replay file whose case is not a generated value records one of the enumerated scenarios
+    // of its tier (a steady flood, a late upstream reply, a large-reply configuration, ...).
+    // Those are deterministic and run before anything generated: re-run the tier.
+    let rerun = |why: String| -> i32 {
+        let tier = if v["tier"].as_str() == Some("thorough") { Tier::Thorough } else { Tier::Quick };
+        eprintln!("{}: the file records an enumerated scenario of `{} {}`; re-running that tier", why, id, if tier == Tier::Thorough { "thorough" } else { "quick" });
+        if id.is_empty() {
+            return 2;
+        }
+        run_check(id, tier)
+    };
     match res {
-        None => {
-            eprintln!("no replayer for {} / {}", id, sub);
-            2
-        }
-        Some(Err(e)) => {
-            eprintln!("cannot decode case: {}", e);
-            2
-        }
+        None => rerun(format!("no case replayer for {} / {}", id, sub)),
+        Some(Err(e)) => rerun(format!("case is not a generated value ({})", e)),
         Some(Ok(out)) => match out.fail {
             Some(f) => {
                 println!("replay: FAIL sig={} detail={}", f.sig, f.detail);
